@@ -9,8 +9,11 @@ package main
 import (
 	"fmt"
 	"os"
+	"path/filepath"
+	"sort"
 	"strconv"
 	"strings"
+	"time"
 )
 
 // `gvh worker c14large <individuals> <families> <places> <sources> <pointer prefix>` prints a large
@@ -165,4 +168,159 @@ func c14Large(n, nFam, nPlaces, nSour int, prefix string) string {
 	}
 	w("0 TRLR")
 	return b.String()
+}
+
+// ---- boundary corpus (runs in every tier) ---------------------------------------------------------
+
+// c14BoundaryFiles: reference values at the byte boundaries and counts of dangling references.
+func c14BoundaryFiles() map[string]string {
+	p64, p255 := strings.Repeat("p", 64), strings.Repeat("q", 255)
+	ptrs := []string{"A", p64, p255, "I 1", "Ié王", "1", "_", "i-1.x"}
+	var b strings.Builder
+	w := func(format string, a ...interface{}) { fmt.Fprintf(&b, format+"\n", a...) }
+	w("0 HEAD")
+	for i, p := range ptrs {
+		w("0 @%s@ INDI", p)
+		w("1 NAME P%d /Ref/", i)
+		w("1 BIRT")
+		w("2 DATE %d", 1800+i)
+		w("1 FAMC @F1@")
+		w("1 FAMS @%s@", p)
+	}
+	w("0 @F1@ FAM")
+	for _, v := range []string{"@", "@@", "@x", "x@", "@ @", "@@@", "@@@@", " @A@", "@A@ ", "@a@", "A"} {
+		w("1 HUSB %s", v)
+		w("1 WIFE %s", v)
+		w("1 CHIL %s", v)
+	}
+	for _, p := range ptrs {
+		w("1 CHIL @%s@", p)
+	}
+	w("0 @F2@ FAM")
+	w("1 HUSB @%s@", p255)
+	w("1 WIFE @I 1@")
+	w("1 CHIL @Ié王@")
+	w("1 CHIL @%s@", p64)
+	w("0 @%s@ FAM", p255) // a family with the pointer of an individual, 255 bytes
+	w("1 HUSB @A@")
+	w("0 TRLR")
+	files := map[string]string{"reference values at the byte boundaries": b.String()}
+
+	b.Reset()
+	w("0 HEAD")
+	w("0 @I1@ INDI")
+	w("1 NAME Real /Person/")
+	w("0 @I2@ INDI")
+	w("1 NAME Other /Person/")
+	for fi, n := range []int{0, 1, 64, 65} {
+		w("0 @F%d@ FAM", fi+1)
+		w("1 HUSB @I1@")
+		if fi%2 == 1 {
+			w("1 WIFE @W%d@", fi)
+		}
+		for k := 0; k < n; k++ {
+			w("1 CHIL @D%d_%d@", fi, k)
+		}
+		w("1 CHIL @I2@")
+	}
+	w("0 TRLR")
+	files["families with 0, 1, 64 and 65 dangling references"] = b.String()
+	return files
+}
+
+// c14Sized: n individuals in n/2 families, small records (for diff -jobs N at the size boundaries).
+func c14Sized(n int) string {
+	var b strings.Builder
+	w := func(format string, a ...interface{}) { fmt.Fprintf(&b, format+"\n", a...) }
+	w("0 HEAD")
+	for i := 1; i <= n; i++ {
+		w("0 @I%d@ INDI", i)
+		w("1 NAME G%d /S%d/", i, i%7)
+		w("1 BIRT")
+		w("2 DATE %d", 1800+i%150)
+	}
+	for f := 1; f <= n/2; f++ {
+		w("0 @F%d@ FAM", f)
+		w("1 HUSB @I%d@", 2*f-1)
+		w("1 WIFE @I%d@", 2*f)
+		w("1 CHIL @I%d@", (2*f)%n+1)
+	}
+	w("0 TRLR")
+	return b.String()
+}
+
+// c14BoundaryRuns appends the boundary corpus to the runs: every subcommand that decodes a file, with
+// its flags, on the boundary files (the same file on both sides), `diff -jobs N` at the size
+// boundaries, and output sinks that cannot be created.
+func c14BoundaryRuns(c *Ctx, tmp string, runs *[]*c14Run) {
+	add := func(label, kind, text, outDir string, args ...string) {
+		*runs = append(*runs, &c14Run{file: "", text: text, kind: kind, args: args, outDir: outDir, label: label, limit: 120 * time.Second})
+	}
+	n := 0
+	out := func(ext string) string { n++; return filepath.Join(tmp, fmt.Sprintf("bnd-%d%s", n, ext)) }
+	bfiles := c14BoundaryFiles()
+	var names []string
+	for name := range bfiles {
+		names = append(names, name)
+	}
+	sort.Strings(names)
+	for bi, name := range names {
+		text := bfiles[name]
+		file := filepath.Join(tmp, fmt.Sprintf("boundary-%d.ged", bi))
+		os.WriteFile(file, []byte(text), 0o644)
+		label := "boundary file: " + name
+		c.Count(label)
+		add(label, "warnings", text, "", "warnings", file)
+		for _, vis := range []string{"show", "hide", "placeholder"} {
+			for _, extra := range [][]string{nil, {"-no-individuals", "-no-places"}, {"-no-families", "-no-surnames", "-no-sources", "-no-statistics"}, {"-jobs", "17"}} {
+				o := out("")
+				add(label, "publish", text, o, append([]string{"publish", "-gedcom", file, "-output-dir", o, "-living", vis}, extra...)...)
+			}
+		}
+		for _, show := range []string{"all", "subset", "only-matches"} {
+			for _, srt := range []string{"written-name", "highest-similarity"} {
+				for _, jobs := range []string{"1", "3"} {
+					o := out(".html")
+					add(label, "diff", text, o, "diff", "-left-gedcom", file, "-right-gedcom", file, "-output", o, "-show", show, "-sort", srt, "-jobs", jobs)
+				}
+			}
+		}
+		for _, extra := range append(append([][]string{}, c14FilterFlags[1:]...),
+			[]string{"-allow-multi-line", "-allow-invalid-indents"}, []string{"-progress"}, []string{"-prefer-pointer-above", "0"}, []string{"-prefer-pointer-above", "1"},
+			[]string{"-minimum-similarity", "0", "-minimum-weighted-similarity", "0"}, []string{"-minimum-similarity", "1", "-minimum-weighted-similarity", "1"},
+			[]string{"-google-analytics-id", "UA-1"}) {
+			o := out(".html")
+			add(label, "diff", text, o, append([]string{"diff", "-left-gedcom", file, "-right-gedcom", file, "-output", o}, extra...)...)
+		}
+		for _, format := range []string{"json", "pretty-json", "csv", "gedcom", "html"} {
+			for _, q := range []string{".Individuals | .Name | .String", ".Families | { husband: .Husband | .String, wife: .Wife | .String, children: .Children }",
+				".Individuals | { spouses: .Spouses, parents: .Parents, families: .Families }"} {
+				add(label, "query", text, "", "query", "-gedcom", file, "-format", format, q)
+			}
+		}
+		add(label+" merged with itself", "query", text, "", "query", "-gedcom", file, "-gedcom", file, "-format", "gedcom", "MergeDocumentsAndIndividuals(Document1, Document2)")
+		add(label, "tune", text, "", "tune", "-gedcom1", file, "-gedcom2", file)
+		// output sinks that cannot be created
+		add(label+", output in a directory that does not exist", "diff", text, "", "diff", "-left-gedcom", file, "-right-gedcom", file, "-output", filepath.Join(tmp, "no-such-dir", "d.html"))
+		add(label+", output is a directory", "diff", text, "", "diff", "-left-gedcom", file, "-right-gedcom", file, "-output", tmp)
+		add(label+", output directory does not exist", "publish-sink", text, "", "publish", "-gedcom", file, "-output-dir", filepath.Join(tmp, "no-such-dir", "site"))
+		add(label+", output directory is a file", "publish-sink", text, "", "publish", "-gedcom", file, "-output-dir", file)
+	}
+	// diff -jobs N at the size boundaries (the same file on both sides)
+	for _, size := range []int{0, 1, 2, 3, 4, 7, 8, 9, 15, 16, 17, 18, 64, 65, 257} {
+		file := filepath.Join(tmp, fmt.Sprintf("sized-%d.ged", size))
+		text := c14Sized(size)
+		os.WriteFile(file, []byte(text), 0o644)
+		for _, jobs := range []int{1, 2, 3, 8, 16, 17} {
+			if c.Quick() && size == 257 && jobs != 3 && jobs != 17 {
+				continue
+			}
+			o := out(".html")
+			label := fmt.Sprintf("sized file: %d individuals, diff -jobs %d", size, jobs)
+			if size > 20 {
+				text = fmt.Sprintf("(generated: %d individuals G<i> /S<i%%7>/ born 1800+i%%150, %d families HUSB 2f-1, WIFE 2f, CHIL 2f%%n+1)", size, size/2)
+			}
+			add(label, "diff", text, o, "diff", "-left-gedcom", file, "-right-gedcom", file, "-output", o, "-jobs", fmt.Sprint(jobs))
+		}
+	}
 }
